@@ -101,6 +101,7 @@ where
     ne: TypedFunc<NoCtx, fn(List<T>, List<T>) -> bool>,
     lit2: TypedFunc<NoCtx, fn(T, T) -> List<T>>,
     lit_exit: TypedFunc<NoCtx, fn(T, T, bool) -> Option<List<T>>>,
+    lit_after: TypedFunc<NoCtx, fn(T, T, bool) -> List<T>>,
     count: TypedFunc<NoCtx, fn(List<T>) -> u64>,
     copy: TypedFunc<NoCtx, fn(List<T>) -> List<T>>,
     pushpush: TypedFunc<NoCtx, fn(List<T>, T, T) -> u64>,
@@ -124,6 +125,24 @@ fn s_ne(a: List[{ty}], b: List[{ty}]) -> bool {{ a != b }}
 fn s_lit2(a: {ty}, b: {ty}) -> List[{ty}] {{ [a, b] }}
 fn s_lit_exit(a: {ty}, b: {ty}, leave: bool) -> List[{ty}]? {{
     Option.Some([a, {{ if leave {{ return Option.None; }}; b }}])
+}}
+fn s_lit_after(a: {ty}, b: {ty}, taken: bool) -> List[{ty}] {{
+    if taken {{
+        let early = [b];
+        early.push(a);
+        let none: List[{ty}] = List.new();
+        none.push(b);
+    }}
+    let i = 0u64;
+    while taken && i < 2 {{
+        let inner: List[{ty}] = [];
+        inner.push(a);
+        i = i + 1;
+    }}
+    let out = [a];
+    let rest: List[{ty}] = List.new();
+    rest.push(b);
+    out + rest
 }}
 fn s_count(l: List[{ty}]) -> u64 {{
     let n = 0u64;
@@ -192,6 +211,7 @@ where
             ne: g!("s_ne"),
             lit2: g!("s_lit2"),
             lit_exit: g!("s_lit_exit"),
+            lit_after: g!("s_lit_after"),
             count: g!("s_count"),
             copy: g!("s_copy"),
             pushpush: g!("s_pushpush"),
@@ -419,6 +439,15 @@ where
                         Some(l) => l,
                         None => bail!("literal-exit", "a list literal without early exit produced no list"),
                     }
+                } else if via && op[1] % 4 == 1 {
+                    // literals and List.new() that stand behind a branch and a loop which build lists of the same
+                    // element type and which may not run
+                    let other = sc.lit_after.call(T::from_key(k1), T::from_key(k2), op[2] % 2 == 0);
+                    let got: Vec<u64> = other.to_vec().iter().map(|x| x.key()).collect();
+                    if got != vec![norm::<T>(k1), norm::<T>(k2)] {
+                        bail!("literal-after-branch", "a list built after a branch (taken: {}) holds {got:?}, expected [{k1}, {k2}]", op[2] % 2 == 0);
+                    }
+                    sc.lit_after.call(T::from_key(k1), T::from_key(k2), op[2] % 2 != 0)
                 } else if via {
                     sc.lit2.call(T::from_key(k1), T::from_key(k2))
                 } else if op[1] % 2 == 0 {
